@@ -336,7 +336,6 @@ async def history(rng: random.Random, r, weird_ok=True):
             store, ns_arg = rng.choice(instances)
             kind = model.kind(ns_arg)
             target = model.resolve(ns_arg)
-            prev = model.copy()
             r.ev('history_ops')
             exc = None
             if op == 'update':
